@@ -15,6 +15,10 @@ pub struct Style {
     pub blank_lines: u8,
     /// print type signatures on annotated function bindings
     pub annotate: bool,
+    /// block comments on own lines / at line ends (every k-th line, 0 = never); the texts vary:
+    /// runs of `*` before the closing `/`, `/*` and `/` inside, several lines
+    #[serde(default)]
+    pub block_comments: u8,
 }
 
 impl Default for Style {
@@ -26,6 +30,7 @@ impl Default for Style {
             crlf: false,
             blank_lines: 0,
             annotate: true,
+            block_comments: 0,
         }
     }
 }
@@ -521,6 +526,29 @@ pub fn print_program(p: &Program, style: Style, header: &str) -> String {
             }
             if style.comments > 0 && k % (style.comments as u32 + 1) == 0 && !l.trim().is_empty() {
                 res.push(format!("{} // e{}", l, i));
+            } else {
+                res.push(l.clone());
+            }
+        }
+        lines = res;
+    }
+    if style.block_comments > 0 {
+        // none of the texts starts with `/**` (that would be a documentation comment)
+        const TEXTS: &[&str] = &[
+            "/* b */", "/* b **/", "/* b ***/", "/* b ****/", "/*b*/", "/***/", "/**/", "/* * */", "/* a ** b */",
+            "/* /* b */", "/* b / * */", "/* // b */", "/* \"b */", "/* b\n   c **/", "/* * / */",
+        ];
+        let mut res = vec![];
+        for (i, l) in lines.iter().enumerate() {
+            let k = i as u32 + 1;
+            let text = TEXTS[(i * 7 + style.block_comments as usize) % TEXTS.len()];
+            if k % style.block_comments as u32 == 0 {
+                let ind = l.len() - l.trim_start().len();
+                res.push(format!("{}{}", pad(ind), text.replace('\n', &format!("\n{}", pad(ind)))));
+            }
+            // not behind a line comment (the block comment would be part of it)
+            if k % (style.block_comments as u32 + 2) == 0 && !l.trim().is_empty() && !l.contains("//") && !text.contains('\n') {
+                res.push(format!("{} {}", l, text));
             } else {
                 res.push(l.clone());
             }
